@@ -111,9 +111,11 @@ Fixpoint tokens_of (x : xnode) : list xtoken :=
   end.
 
 (* The one piece of tokenizer behaviour the model needs: Decoder.Token fails on an XML
-   declaration whose version is not 1.0 or whose encoding is not UTF-8 (compared with
-   strings.EqualFold) because ParseXML installs no CharsetReader; ParseXML's loop then ends,
-   so it sees the tokens before that declaration only.  Declarations stand at top level. *)
+   declaration whose version is not 1.0, or whose encoding is neither UTF-8 (compared with
+   strings.EqualFold) nor a label ParseXML's CharsetReader (charset.NewReaderLabel, fix for
+   C19-pom-encoding) knows; ParseXML's loop then ends, so it sees the tokens before that
+   declaration only.  Declarations stand at top level.  The modelled documents are ASCII, so
+   only the ASCII-compatible labels are listed: on them the decoded text is the text itself *)
 Definition lower_ascii (c : ascii) : ascii :=
   let n := nat_of_ascii c in
   if Nat.leb 65 n && Nat.leb n 90 then ascii_of_nat (n + 32) else c.
@@ -124,9 +126,14 @@ Fixpoint lower (s : string) : string :=
   | String c r => String (lower_ascii c) (lower r)
   end.
 
+Definition ascii_charsets : list string :=
+  ["utf-8"; "iso-8859-1"; "latin1"; "us-ascii"; "ascii"; "windows-1252"; "cp1252";
+   "iso-8859-15"; "iso-8859-2"; "windows-1250"; "windows-1251"; "koi8-r"; "gbk"; "gb2312";
+   "gb18030"; "big5"; "shift_jis"; "euc-jp"; "euc-kr"].
+
 Definition decl_supported (version encoding : string) : bool :=
   (String.eqb version "" || String.eqb version "1.0") &&
-  (String.eqb encoding "" || String.eqb (lower encoding) "utf-8").
+  (String.eqb encoding "" || existsb (String.eqb (lower encoding)) ascii_charsets).
 
 Fixpoint readable (doc : list xnode) : list xnode :=
   match doc with
